@@ -47,6 +47,15 @@ FIXES = [
   "the TA signer processed a validly signed request again when it was delivered a second time (same nonce) or replayed from an earlier round: child certificates issued twice, manifest and CRL moved on, a second exchange stored - while the proxy accepts one response per request"),
  ("revoke a child's key also when the child knows the resource class under another name", "C03", "revocation_without_effect",
   "process_child_revoke_key looked up the class under the child's name for it before translating it through the child's resource class name mapping; for a child with a mapped class name the revocation request (key roll finished) was answered positively but the certificate of the retired key stayed issued and published"),
+ ("answer a trust anchor child's revocation request for an already revoked key with 1302", "C08", "diverged_from_twin",
+  "(also C09/C02) crash of a TA child after it received the revocation response and before the finished key roll was stored (cut at the pre-save write of the object set during keyroll_activate): after restart the child sent the revocation again, the TA proxy queued it (the key is still listed, as revoked), the signer refused the whole request with 'revocation for unknown key' on every synchronisation and no request of any TA child was processed any more"),
+ ("truncate an existing file when it is written again", "C09", "rrdp_unreadable",
+  "(also C11) crash at the rename of the new notification file left the temporary file behind; the next, shorter notification was written over it without truncation, renamed and served: notification.xml was malformed XML (cut at fs rrdp_notification_rename during child_suspend, seed 1000000150)"),
+ ("drop a trust anchor response the child no longer waits for", "C09", "parent_sync_not_done",
+  "crash while a TA child was being deleted, after its revocation request was queued at the TA proxy: the restarted child asked for a certificate for the same key, the proxy failed every such request with 'Response does not match request type' because of the open revocation response, and the child's parent synchronisation never succeeded again (seed 1000000329, cuts 3/6/9 of delete_ca)"),
+ ("do not name a URI twice in an RRDP delta when an object moves between publishers", "C10", "rrdp_client",
+  "(also C11) publisher 'a' removed (objects withdrawn) and publisher 'a/b' added and publishing rsync://.../a/b/m.mft before the next RRDP update: the delta held a publish without hash and a withdraw for the same URI, which a client holding the object cannot apply (seed 1000000905)"),
+
 ]
 
 log = subprocess.run(["git", "-C", "/repo", "log", "--format=%h %s", "--grep=^fix:"],
